@@ -81,3 +81,55 @@ func TestFinding_C01_ForwardOvertake(t *testing.T) {
 		fmt.Println("FINDING-ABSENT F-C01-forward-overtake")
 	}
 }
+
+// F-C04-partition-barrier-undersized: AddPartition sizes the drop barrier by the number of handlers that hold the
+// collection at the moment it runs. The subscription of shard 1 is still in progress (slow message queue) when the
+// partition is registered, so the barrier expects 1 signal instead of 2: the drop request is issued as soon as shard 0
+// delivers the drop-partition message although shard 1 has not reached it.
+func TestFinding_C04_PartitionBarrierUndersized(t *testing.T) {
+	w := newWorld(worldOpts{ttIntervalMs: 10000000, bufSize: 4})
+	defer w.close()
+	parts := []*partDef{{name: "_default"}, {name: "p1"}}
+	c := w.addCollection(0, "default", []int{0, 1}, []int{0, 1}, parts, false)
+	gate := make(chan struct{})
+	w.disp.HoldRegister = func(v string) {
+		if v == c.streams[1].srcV {
+			<-gate
+		}
+	}
+	if err := w.start(c); err != nil {
+		t.Fatalf("VERIF-TROUBLE start: %v", err)
+	}
+	if !w.waitRegistered(c.streams[0], 10*time.Second) {
+		t.Fatalf("VERIF-TROUBLE shard 0 not registered")
+	}
+	if err := w.mgr.AddPartition(w.taskCtx(), (&modelDB{c.db}).info(), c.info, partInfo(c, parts[1])); err != nil {
+		t.Fatalf("VERIF-TROUBLE AddPartition: %v", err)
+	}
+	close(gate)
+	if !w.waitRegistered(c.streams[1], 10*time.Second) {
+		t.Fatalf("VERIF-TROUBLE shard 1 not registered")
+	}
+	st := c.streams[0]
+	st.posKd = "pchannel"
+	p := mkPack(st, 0, ts(1700000000000, 0), "dropPartition")
+	p.msgs[0].part = parts[1]
+	st.script = []*packDef{p}
+	w.feedNext(st)
+	if b, ok := w.quiesce(20 * time.Second); !ok {
+		t.Fatalf("VERIF-TROUBLE quiesce: %s", b)
+	}
+	_, events := w.snapshot()
+	n := 0
+	for _, ev := range events {
+		if ev.EventType == 4 { // api.ReplicateDropPartition
+			n++
+		}
+	}
+	fmt.Printf("drop-partition requests after 1 of 2 shards delivered the drop message: %d\n", n)
+	if n > 0 {
+		fmt.Println("FINDING-PRESENT F-C04-partition-barrier-undersized")
+	} else {
+		fmt.Println("FINDING-ABSENT F-C04-partition-barrier-undersized")
+	}
+}
